@@ -43,8 +43,10 @@ def make_dm(cell):
 
 def make_atmo(name):
     from py_ballisticcalc import Atmo, Vacuum, Unit
-    if isinstance(name, (list, tuple)):      # [alt_ft, inHg, degF, humidity]
-        a, p, t, h = name
+    if isinstance(name, (list, tuple)):      # [alt_ft, inHg, degF, humidity(, powder degF)]
+        a, p, t, h = name[:4]
+        if len(name) > 4:
+            return Atmo(Unit.Foot(a), Unit.InHg(p), Unit.Fahrenheit(t), h, Unit.Fahrenheit(name[4]))
         return Atmo(Unit.Foot(a), Unit.InHg(p), Unit.Fahrenheit(t), h)
     if name == 'icao':
         return Atmo.icao()
